@@ -1,7 +1,6 @@
 package worldcat
 
 import (
-	"bytes"
 	"encoding/json"
 	"errors"
 	"fmt"
@@ -456,6 +455,11 @@ type helper struct {
 	// (*os.Process).Wait blocks on
 	exited    chan struct{}
 	hasExited bool
+	// the out helper's stdin between os/exec's copier and the process
+	kbuf [kernelPipeSize + 32*1024]byte
+	klen int
+	keof bool
+	gone bool
 }
 
 type world struct {
@@ -631,7 +635,8 @@ func installHooks() {
 			if kind == "in" {
 				h.actorID = startThread(func() { w.runInHelper(h) })
 			} else {
-				h.actorID = startThread(func() { w.runOutHelper(h) })
+				startThread(func() { w.runOutCopier(h) })
+				h.actorID = startThread(func() { w.runOutProcess(h) })
 			}
 			return nil
 		},
@@ -722,46 +727,145 @@ func (w *world) takeRec() int64 {
 	return w.nextRec
 }
 
-// runOutHelper reads its stdin and logs every complete line.
+// The out helper: a process that reads lines from its stdin.
 //
 // What a real process looks like from the driver's side, with cmd.Stdin set to something that
 // is not a file (the driver uses an io.Pipe): os/exec copies from it into an OS pipe in a
-// goroutine of its own. When the process has ended, that goroutine still takes whatever is
-// written next, fails to pass it on and ends - without closing cmd.Stdin. From then on nobody
-// reads the pipe any more. (Checked against a real child process: the first write after its
-// death returns nil, the second one blocks for good.)
-func (w *world) runOutHelper(h *helper) {
-	in := h.cmd.Stdin
-	// Whatever one Write hands over is taken in one piece: between the driver and the process
-	// sit os/exec's copying goroutine (32 KiB reads) and the kernel's pipe buffer, so a line
-	// written with one Write call is never seen in parts, whereas a line written in several
-	// calls can be cut or interleaved. (ReadBuf of older scenarios no longer matters.)
-	buf := make([]byte, 32*1024)
-	var acc []byte
-	lines := 0
-	afterlife := func() {
-		h.exit()
-		// complete lines the process had taken from its stdin but not yet acted upon die with it
-		for {
-			i := bytes.IndexByte(acc, '\n')
-			if i < 0 {
-				break
-			}
-			logEvent("helper-line-lost-in-dead-process", 0, 0, string(acc[:i]))
-			acc = acc[i+1:]
+// goroutine of its own (32 KiB reads: whatever one Write hands over is taken in one piece, so
+// a line written with one Write call is never seen in parts, whereas a line written in
+// several calls can be cut or interleaved), and the kernel buffers that pipe (64 KiB): Send
+// returns long before the process has acted on the line. When the process has ended, the
+// copying goroutine still takes whatever is written next, fails to pass it on and ends -
+// without closing cmd.Stdin; from then on nobody reads the pipe any more. What sits in the
+// kernel buffer when the process is killed is gone. A process whose stdin reaches its end
+// works off what is buffered and ends by itself (that is what `midicat out` does).
+// (All of this was checked against real child processes: first write after a death returns
+// nil, the second blocks for good; 2000 Sends followed at once by Close: 11..232 arrive.)
+//
+// Two actors share the kernel buffer: runOutCopier and runOutProcess.
+const kernelPipeSize = 64 * 1024
+
+// (The buffer is a fixed array moved byte by byte: append, copy and string conversions call
+// into the runtime, which reports to the race detector whatever the caller's annotation is.)
+//
+//go:norace
+func (h *helper) kput(b []byte) bool {
+	if h.klen+len(b) > kernelPipeSize && h.klen > 0 {
+		return false
+	}
+	if h.klen+len(b) > len(h.kbuf) {
+		return false
+	}
+	for i := 0; i < len(b); i++ {
+		h.kbuf[h.klen+i] = b[i]
+	}
+	h.klen += len(b)
+	return true
+}
+
+// ktakeLine removes the first complete line from the kernel buffer.
+//
+//go:norace
+func (h *helper) ktakeLine() (string, bool) {
+	n := -1
+	for i := 0; i < h.klen; i++ {
+		if h.kbuf[i] == '\n' {
+			n = i
+			break
 		}
-		if own, ok := in.(midicatdrv.VerifOwnedStdin); ok {
-			// a pipe made by StdinPipe is the process's own stdin: it goes away with it
-			own.Close()
+	}
+	if n < 0 {
+		return "", false
+	}
+	return h.kshift(n, 1), true
+}
+
+// kshift removes n bytes (plus skip) from the front and returns the n bytes.
+//
+//go:norace
+func (h *helper) kshift(n, skip int) string {
+	l := make([]byte, n)
+	for i := 0; i < n; i++ {
+		l[i] = h.kbuf[i]
+	}
+	rest := h.klen - n - skip
+	for i := 0; i < rest; i++ {
+		h.kbuf[i] = h.kbuf[n+skip+i]
+	}
+	h.klen = rest
+	return string(l)
+}
+
+//go:norace
+func (h *helper) krest() string { return h.kshift(h.klen, 0) }
+
+//go:norace
+func (h *helper) setEOF() { h.keof = true }
+
+//go:norace
+func (h *helper) atEOF() bool { return h.keof }
+
+//go:norace
+func (h *helper) setGone() { h.gone = true }
+
+//go:norace
+func (h *helper) isGone() bool { return h.gone || h.killed }
+
+// runOutCopier is os/exec's goroutine that feeds the stdin of the process.
+func (w *world) runOutCopier(h *helper) {
+	in := h.cmd.Stdin
+	_, owned := in.(midicatdrv.VerifOwnedStdin) // made by StdinPipe: the pipe itself is the process's stdin
+	buf := make([]byte, 32*1024)
+	for {
+		n, err := in.Read(buf)
+		if h.isGone() {
+			if n > 0 {
+				// the process has ended: this write is taken and goes nowhere
+				logEvent("helper-dropped", int64(n), 0, "out")
+			}
 			return
 		}
-		big := make([]byte, 32*1024)
-		n, _ := in.Read(big)
-		logEvent("helper-dropped", int64(n), 0, "out")
+		if n > 0 {
+			for !h.kput(buf[:n]) {
+				yield() // the kernel buffer is full: the writer has to wait
+				if h.isGone() {
+					logEvent("helper-dropped", int64(n), 0, "out")
+					return
+				}
+			}
+		}
+		if err != nil {
+			h.setEOF()
+			return
+		}
+		_ = owned
+		yield()
+	}
+}
+
+// runOutProcess is the process itself: it takes line after line from its stdin.
+func (w *world) runOutProcess(h *helper) {
+	lines := 0
+	end := func(lostAs string) {
+		h.setGone()
+		for {
+			l, ok := h.ktakeLine()
+			if !ok {
+				break
+			}
+			logEvent(lostAs, 0, 0, l)
+		}
+		h.krest()
+		h.exit()
+		if own, ok := h.cmd.Stdin.(midicatdrv.VerifOwnedStdin); ok {
+			// a pipe made by StdinPipe goes away with the process: writers get an error
+			own.Close()
+		}
 	}
 	for {
 		if h.isKilled() {
-			afterlife()
+			// killed: what it had not read yet is gone with it
+			end("helper-line-lost-at-kill")
 			return
 		}
 		if h.cfg.Gap > 0 {
@@ -772,28 +876,31 @@ func (w *world) runOutHelper(h *helper) {
 			sleepSlots(h.cfg.StallLen)
 			lines = -1 << 30 // stall once
 		}
-		n, err := in.Read(buf)
-		acc = append(acc, buf[:n]...)
-		for {
-			i := bytes.IndexByte(acc, '\n')
-			if i < 0 {
-				break
-			}
-			logEvent("helper-line", 0, 0, string(acc[:i]))
-			acc = acc[i+1:]
-			lines++
-			if h.cfg.DieAt > 0 && lines == h.cfg.DieAt {
-				// the helper dies
-				logEvent("helper-died", 0, 0, "out")
-				h.setDead()
-				afterlife()
+		if h.isKilled() {
+			end("helper-line-lost-at-kill")
+			return
+		}
+		l, ok := h.ktakeLine()
+		if !ok {
+			if h.atEOF() {
+				// end of input: the process ends by itself
+				if rest := h.krest(); rest != "" {
+					logEvent("helper-partial", 0, 0, rest)
+				}
+				logEvent("helper-exits-at-end-of-input", 0, 0, "out")
+				end("helper-line-lost-at-kill")
 				return
 			}
+			yield()
+			continue
 		}
-		if err != nil {
-			if len(acc) > 0 {
-				logEvent("helper-partial", 0, 0, string(acc))
-			}
+		logEvent("helper-line", 0, 0, l)
+		lines++
+		if h.cfg.DieAt > 0 && lines == h.cfg.DieAt {
+			// the helper dies (crash fault): what it had buffered dies with it
+			logEvent("helper-died", 0, 0, "out")
+			h.setDead()
+			end("helper-line-lost-in-dead-process")
 			return
 		}
 		yield()
